@@ -11,6 +11,8 @@ THEOREMS = THEOREMS + vcore.theorems_in("SodiumModel/Properties/C03Cores.lean", 
 IMPORTS = ["SodiumModel.Properties.C03"] if THEOREMS else ["SodiumModel.Model.Stream"]
 IMPORTS = IMPORTS + ["SodiumModel.Properties.C03Cores", "SodiumModel.Properties.C03Simd"]
 THEOREMS = THEOREMS + vcore.theorems_in("SodiumModel/Properties/C03Simd.lean", ['shuffle_epi8_rot16', 'shuffle_epi8_rot8', 'shuffle256_epi8_rot16', 'shuffle256_epi8_rot8', 'VEC4_ROT_12', 'VEC4_ROT_7', 'row_rot_12', 'row_rot_7', 'VEC4_QUARTERROUND_lane', 'u4_doubleRound_lanes', 'u8_doubleRound_lanes', 'row_doubleRound_eq', 'refBlocks_counter', 'refBlocks_length', 'u1_block', 'u4_counter_lanes', 'u8_counter_lanes', 'u4_blocks', 'u8_blocks', 'u0_tail', 'avx2_encrypt_bytes_eq_ref', 'ssse3_encrypt_bytes_eq_ref', 'avx2_eq_ssse3', 'counter_after_simd', 'counter_after_ref', 'ctx_after_eq_ref_of_full_blocks', 'counter_differs_after_partial_block', 'inplace_bodies_eq', 'stream_ref_eq_ref', 'stream_ietf_ext_ref_eq_ref', 'stream_ref_xor_ic_eq_ref', 'ietf_ext_xor_ic_eq_ref', 'avx2_stream_xor_ic_spec', 'ssse3_stream_xor_ic_spec', 'avx2_stream_spec', 'ssse3_stream_spec', 'avx2_ietf_xor_ic_spec', 'ssse3_ietf_xor_ic_spec', 'avx2_ietf_stream_spec', 'ietf_boundary_bumps_nonce_word', 'ietf_boundary_inside_u8_batch', 'ietf_boundary_inside_u4_batch'], "Sodium.C03Simd")
+IMPORTS = IMPORTS + ["SodiumModel.Properties.C03SalsaSimd"]
+THEOREMS = THEOREMS + vcore.theorems_in("SodiumModel/Properties/C03SalsaSimd.lean", ['TR_involution', 'toDiagonal_input', 'layout_roundtrip', 'rows_are_diagonals', 'setup_layout', 'setup_layout_null', 'xor_shifts_are_rotl', 'u4_doubleRound_lanes', 'u8_doubleRound_lanes', 'row_body_eq', 'refWords_eq', 'refCore_eq', 'refCore_eq_core', 'refBlocks_eq', 'counter_withCtr', 'counter_qOf', 'refBlocks_counter', 'refBlocks_length', 'u1_block', 'u1_block_any', 'u4_counter_lanes', 'u8_counter_lanes', 'origs_ignore_counter', 'u4_blocks', 'u8_blocks', 'u0_tail', 'ctxBlock_eq', 'encrypt_bytes_eq_keystream', 'avx2_eq_sse2', 'counter_after_simd', 'partial_block_leaves_counter', 'counter_wraps', 'inplace_bodies_eq', 'refS_length', 'ctxBlock_setup', 'stream_xor_ic_eq_ref', 'stream_eq_ref', 'refS_spec', 'stream_xor_ic_spec', 'stream_spec', 'xsalsa20_xor_ic_spec'], "Sodium.C03SalsaSimd")
 FINGERPRINTS = "C03"     # Tie B: pinned source text of the hand-transcribed dolbeau ChaCha20 files (tools/fingerprint.py)
 
 
